@@ -20,14 +20,14 @@ import (
 )
 
 type tAspect struct {
-	jp              int
+	jp               int
 	aspect, from, to common.Address
-	input           []byte
-	gas, gasLeft    uint64
-	value           *big.Int
-	calls           []*tFrame
-	ret             []byte
-	err             error
+	input            []byte
+	gas, gasLeft     uint64
+	value            *big.Int
+	calls            []*tFrame
+	ret              []byte
+	err              error
 }
 
 type tFrame struct {
